@@ -268,7 +268,7 @@ def run_cases_in_coq(pid: str, imports: list[str], run_expr: str, cases: list[tu
             "Open Scope N_scope.",
             preamble,
             f"Definition run := {run_expr}.",
-            "Definition cases := [",
+            (f"Definition cases : list ({in_ty} * list Z) := [" if in_ty else "Definition cases := ["),
         ]
         parts.append(";\n".join(f"({inp}, {zl(exp)})" for inp, exp in sh))
         parts.append("].")
